@@ -84,6 +84,18 @@ CHECKS["C16"] = dict(engine="equality", design="4 C16", technique="TLA+ model ch
          "plus nominative / id / unknown / law / journal groups and pools of all database examples. TLC judges ==, hash, Resource against the written identity, the equivalence laws and the "
          "corrected_citation round trip."),
    note="Trusted: TLC + Json; members not extracted exactly as written (custom templates) are skipped and counted; example pools take the written identity from the extracted groups.")
+EXT_NOTE = ("Trusted: TLC + Json; 'every string' is reached through the hostile closure of the fragment grammar (bounded depth); "
+            "witness offsets are searched by the harness but verified by TLC; calls that raise are judged under C04.")
+_ext = ("Extract.tla models the offset arithmetic of the extractors (extract_pin_cite, add_post_citation with parenthetical trimming, the backward party-name scan of add_defendant, "
+        "add_pre_citation, short-form antecedents, match_on_tokens windows) over abstract token lists with NONDETERMINISTIC regex results; TLC checks SpanLaws for every word list of <= 4 (5) tokens, "
+        "every citation position and form and every matcher result the window admits (and finds the two original arithmetic defects when the fix flags are off). "
+        "Citation-dense generated documents (all fragment pairs x separators, seeded longer and hostile documents, character mutations), in plain and markup mode, through the three tokenizers, "
+        "are judged by TLC monitors on the returned citations: ")
+CHECKS["C02"] = dict(engine="extract", design="4 C02", technique="TLA+ model checking of Extract.tla (offset arithmetic with nondeterministic matchers) + TLC-judged monitors on citations returned for generated documents",
+   text=_ext + "0 <= full start <= start <= end <= full end <= len; the slice at the span starts with the whole matched text; the pin-cite span contains the span and the pin-cite text.", note=EXT_NOTE)
+CHECKS["C17"] = dict(engine="extract", design="4 C17", technique="TLC-judged witness monitor (every textual metadata value occurs inside the citation's own or joint extent) on generated documents + Extract.tla",
+   text=_ext + "every textual metadata value (pin cite, year, parties, antecedent, extra, publisher, month, day, supra volume, full-citation parenthetical) is a slice of the text inside the citation's full span "
+              "or the joint extent of the citations that start at the same place.", note=EXT_NOTE)
 NA_REASON = "check not built yet (work in progress; see DESIGN.md section 10 build order)"
 checks = []
 for p in props:
@@ -117,6 +129,8 @@ m = {"version": 1,
               "serves_properties": ["C18"], "kind_free_text": "TLA+ spec, TLC model checking, database-exhaustive extraction, TLC trace validation"},
              {"name": "equality", "path": "spec/Equality.tla spec/MC_Equality.tla spec/Trace_Equality.tla harness/chk_equality.py harness/drv_extract.py",
               "serves_properties": ["C16"], "kind_free_text": "TLA+ spec, TLC model checking, database-exhaustive comparison groups, TLC trace validation"},
+             {"name": "extract", "path": "spec/Extract.tla spec/MC_Extract.tla spec/Trace_Extract.tla harness/chk_extract.py harness/drv_extract.py harness/gendocs.py",
+              "serves_properties": ["C02", "C17"], "kind_free_text": "TLA+ spec of the offset arithmetic, TLC model checking, TLC-judged monitors on real extraction results"},
              {"name": "annotate", "path": "spec/Annotate.tla spec/SpanUpdater.tla spec/MC_Annotate.tla spec/MC_SpanUpdater.tla spec/Trace_Annotate.tla spec/Trace_SpanUpdater.tla harness/chk_annotate.py harness/drv_annotate.py",
               "serves_properties": ["C09", "C10", "C11"], "kind_free_text": "TLA+ spec, TLC model checking, configuration replay, TLC trace validation"}],
  "checks": checks,
